@@ -38,12 +38,19 @@ func genScenario(t *rapid.T, kind string) LeaseScenario {
 		case len(s.FailCas) > 0:
 			s.DelayPct = min(s.DelayPct, 10)
 		}
+		s.Acquire = rapid.SampledFrom([]string{"", "", "lockctx", "trylock"}).Draw(t, "acquire")
 	case "death":
 		s.PhasePct = rapid.IntRange(0, 99).Draw(t, "phase")
 		s.Renewals = rapid.IntRange(0, 3).Draw(t, "renewals")
 		s.Waiters = rapid.SampledFrom([]int{1, 2, 2, 3}).Draw(t, "waiters")
 	case "unlockrace":
 		s.After = rapid.Bool().Draw(t, "after")
+	case "relock":
+		s.After = rapid.Bool().Draw(t, "after")
+		s.HoldCreate = rapid.Bool().Draw(t, "holdCreate")
+	case "unlockfail":
+		s.Hold10 = rapid.IntRange(0, 14).Draw(t, "hold10")
+		s.Applied = rapid.IntRange(0, 3).Draw(t, "applied") == 0
 	case "bystander":
 		s.After = rapid.Bool().Draw(t, "after")
 		s.Waiters = rapid.IntRange(0, 2).Draw(t, "others")
@@ -58,7 +65,7 @@ func genScenario(t *rapid.T, kind string) LeaseScenario {
 }
 
 func recordLease(s LeaseScenario, info LeaseInfo) {
-	nt := (s.Kind == "hold" && info.InjectedFailures > 0) || s.Kind == "death" || s.Kind == "handoff" || s.Kind == "waithold" || (s.Kind == "bystander" && info.HeldInFlight) || (s.Kind == "unlockrace" && info.HeldInFlight)
+	nt := (s.Kind == "hold" && info.InjectedFailures > 0) || s.Kind == "death" || s.Kind == "handoff" || s.Kind == "waithold" || (s.Kind == "bystander" && info.HeldInFlight) || (s.Kind == "unlockrace" && info.HeldInFlight) || (s.Kind == "relock" && info.HeldInFlight) || s.Kind == "unlockfail"
 	cl := []string{"scenario:" + s.Kind, fmt.Sprintf("lease_ms:%d", s.LeaseMs)}
 	if info.Retried > 0 {
 		cl = append(cl, "confirmed_only_after_retry")
@@ -71,6 +78,15 @@ func recordLease(s LeaseScenario, info LeaseInfo) {
 	}
 	if s.Kind == "unlockrace" {
 		cl = append(cl, fmt.Sprintf("unlockrace_applied_before_unlock:%v", s.After))
+	}
+	if s.Kind == "hold" && s.Acquire != "" {
+		cl = append(cl, "hold_acquired_with_context_cancelled_afterwards:"+s.Acquire)
+	}
+	if s.Kind == "relock" {
+		cl = append(cl, fmt.Sprintf("relock_applied_before_unlock:%v_create_in_flight:%v", s.After, s.HoldCreate))
+	}
+	if s.Kind == "unlockfail" {
+		cl = append(cl, fmt.Sprintf("unlockfail_delete_applied:%v", s.Applied))
 	}
 	vstat.For("C05").Case(nt, vstat.Hash(s), func() any { return s }, cl...)
 	vstat.For("C05").AddExtra("store_samples", int64(info.Samples))
@@ -106,8 +122,8 @@ func TestC05Rapid(t *testing.T) {
 		var batch []LeaseScenario
 		races := 0
 		for i := 0; i < n; i++ {
-			kind := rapid.SampledFrom([]string{"hold", "hold", "hold", "death", "death", "unlockrace", "handoff", "handoff", "waithold", "bystander"}).Draw(rt, "kind")
-			if kind == "unlockrace" || kind == "bystander" {
+			kind := rapid.SampledFrom([]string{"hold", "hold", "hold", "death", "death", "unlockrace", "relock", "unlockfail", "handoff", "handoff", "waithold", "bystander"}).Draw(rt, "kind")
+			if kind == "unlockrace" || kind == "bystander" || kind == "relock" {
 				if races >= 3 { // every such scenario parks one worker of the timer pool for a while
 					kind = "hold"
 				}
@@ -138,6 +154,18 @@ func TestC05EveryK(t *testing.T) {
 	}
 	for _, after := range []bool{false, true} {
 		batch = append(batch, LeaseScenario{Kind: "unlockrace", LeaseMs: lease, After: after})
+	}
+	for _, after := range []bool{false, true} {
+		batch = append(batch, LeaseScenario{Kind: "relock", LeaseMs: lease, After: after, HoldCreate: !after})
+	}
+	runBatch(t, "TestC05EveryK", batch)
+	batch = nil
+	batch = append(batch, LeaseScenario{Kind: "relock", LeaseMs: lease, After: true, HoldCreate: true}, LeaseScenario{Kind: "relock", LeaseMs: lease, After: false, HoldCreate: false})
+	for _, h := range []int{2, 7} {
+		batch = append(batch, LeaseScenario{Kind: "unlockfail", LeaseMs: lease, Hold10: h}, LeaseScenario{Kind: "unlockfail", LeaseMs: lease, Hold10: h + 4, Applied: true})
+	}
+	for _, acq := range []string{"lockctx", "trylock"} {
+		batch = append(batch, LeaseScenario{Kind: "hold", LeaseMs: lease, Periods: 4, Acquire: acq})
 	}
 	for _, pct := range []int{10, 15} { // a slow (but answering) storage: every renewal call takes 10-15% of the lease
 		batch = append(batch, LeaseScenario{Kind: "hold", LeaseMs: lease, Periods: 6, DelayPct: pct})
@@ -175,6 +203,11 @@ func TestC01LongWaiter(t *testing.T) {
 		batch = append(batch, LeaseScenario{Kind: "waithold", LeaseMs: 300, Wait10: w, OnlyExcl: true})
 	}
 	batch = append(batch, LeaseScenario{Kind: "bystander", LeaseMs: 300, After: false, Waiters: 1, OnlyExcl: true}, LeaseScenario{Kind: "bystander", LeaseMs: 300, After: true, Waiters: 2, OnlyExcl: true})
+	for _, after := range []bool{false, true} {
+		for _, hc := range []bool{false, true} {
+			batch = append(batch, LeaseScenario{Kind: "relock", LeaseMs: 300, After: after, HoldCreate: hc, OnlyExcl: true})
+		}
+	}
 	// an ownerless record expires under several waiters: they must take the lock one at a time
 	for i := 0; i < vstat.Pick(4, 12); i++ {
 		batch = append(batch, LeaseScenario{Kind: "death", LeaseMs: 300, PhasePct: 10 + 20*(i%5), Renewals: i % 2, Waiters: 2 + i%2, OnlyExcl: true})
@@ -200,5 +233,49 @@ func TestC01LongWaiter(t *testing.T) {
 		}
 		st.Report(t, "TestC01LongWaiter", batch[i], viols[i])
 		st.Case(true, vstat.Hash(batch[i]), func() any { return batch[i] }, "real_clock_long_waiter")
+	}
+}
+
+// TestC04LateRenewal: release and hand-over on the real clock with a lease renewal in flight across the Unlock - the
+// part of C04 the frozen-clock engine cannot see (no renewal ever fires there). Judged for C04 only: the record is
+// gone after Unlock, the same Locker and a contender can acquire afterwards, nothing is left at the end.
+func TestC04LateRenewal(t *testing.T) {
+	if !hooksOn {
+		t.Skip("distlock/timeout hooks unavailable")
+	}
+	resetTimers()
+	defer drainTimers()
+	st := vstat.For("C04")
+	c04 := map[string]bool{"lease:record-after-unlock": true, "lease:cannot-reacquire": true, "lease:not-released": true, "lease:relock-stuck": true, "lease:panic": true}
+	leases := vstat.Pick([]int{300}, []int{100, 300, 600})
+	var batch []LeaseScenario
+	for _, l := range leases {
+		for _, after := range []bool{false, true} {
+			batch = append(batch, LeaseScenario{Kind: "unlockrace", LeaseMs: l, After: after})
+			for _, hc := range []bool{false, true} {
+				batch = append(batch, LeaseScenario{Kind: "relock", LeaseMs: l, After: after, HoldCreate: hc})
+			}
+		}
+	}
+	for lo := 0; lo < len(batch); lo += 3 { // every scenario parks one worker of the timer pool
+		hi := min(lo+3, len(batch))
+		viols := make([]*vstat.Violation, hi-lo)
+		var wg sync.WaitGroup
+		for i := lo; i < hi; i++ {
+			wg.Add(1)
+			go func(i int) {
+				defer wg.Done()
+				_, viols[i-lo] = RunLease(batch[i])
+			}(i)
+		}
+		wg.Wait()
+		for i := lo; i < hi; i++ {
+			v := viols[i-lo]
+			if v != nil && !c04[v.Sig] {
+				v = nil // lease upkeep of a held lock is C05's business
+			}
+			st.Report(t, "TestC04LateRenewal", batch[i], v)
+			st.Case(true, vstat.Hash(batch[i]), func() any { return batch[i] }, "real_clock_unlock_with_renewal_in_flight")
+		}
 	}
 }
